@@ -20,7 +20,7 @@
    Examples at the end instantiate the hypotheses on concrete inputs (arithmetic on Z). *)
 From Coq Require Import List Bool Arith ZArith Lia.
 Import ListNotations.
-Require Import C16.Model C16.ProofsLoop C16.ProofsMain C16.ProofsKernel C16.ProofsSpec C16.ProofsClosed C16.ProofsFinite.
+Require Import C16.Model C16.ProofsLoop C16.ProofsMain C16.ProofsKernel C16.ProofsSpec C16.ProofsClosed C16.ProofsFinite C16.ProofsSettings.
 
 Section AnyArithmetic.
 Variable F : Type.
@@ -101,6 +101,31 @@ Theorem C16_operator_route st d32 dt n A upper : n <> 1 ->
   = psc ar chol_ex st d32 dt n A upper None None.
 Proof. exact (op_cholesky_route F ar chol_ex st d32 dt n A upper). Qed.
 
+(* WHERE jitter / max_tries COME FROM.  `enter_all st cs` is the settings state seen by the body of
+   `with c1: with c2: ... with ck:` (Model.v: transcription of _dtype_value_context._set_value — "if x is not None" —,
+   _value_context._set_value and _feature_flag._set_state), for ANY nesting depth and any mixture of contexts:
+   the value in force is the one given by the innermost context that SPECIFIES it (for cholesky_jitter: a non-None
+   argument in the slot of the dtype; ANY value counts, 0 included), otherwise the one in force outside. *)
+Theorem C16_context_values_in_force (st : settings F) (cs : list (context F)) dt :
+  cholesky_jitter_value (enter_all st cs) dt
+    = match innermost_jitter F dt cs with Some v => v | None => cholesky_jitter_value st dt end /\
+  cmt_value (enter_all st cs) = match innermost_tries F cs with Some v => v | None => cmt_value st end /\
+  trace_on (enter_all st cs) = match innermost_trace F cs with Some v => v | None => trace_on st end.
+Proof. exact (conj (enter_all_jitter F st cs dt) (conj (enter_all_tries F st cs) (enter_all_trace F st cs))). Qed.
+
+(* THE LADDER (minimality statement instantiated on the announced values), whatever the outcome (normal return or
+   NotPSDError), any batch, any arithmetic: the i-th try announces exactly jitter * 10^i (`J j i = j * pow10 i`,
+   pow10 0 = 1, pow10 (S i) = pow10 i * 10), i < number of tries <= max_tries; C16_telescope / C16_ok_characterisation
+   say that this is also what the failing members carry on the diagonal *)
+Theorem C16_ladder st d32 dt n A upper jitter max_tries :
+  let j := eff_jitter F st dt jitter in
+  let w := warnings_of F (fst (psc ar chol_ex st d32 dt n A upper jitter max_tries)) in
+  w = map (J F ar j) (seq 0 (length w)) /\ length w <= eff_tries F st max_tries.
+Proof. exact (psc_ladder F ar chol_ex st d32 dt n A upper jitter max_tries). Qed.
+
+Theorem C16_pow10_step i : pow10 ar 0 = a1 ar /\ pow10 ar (S i) = amul ar (pow10 ar i) (a10 ar).
+Proof. exact (conj eq_refl (pow10_unfold F ar i)). Qed.
+
 End AnyArithmetic.
 
 Section ExactArithmetic.
@@ -177,7 +202,43 @@ Theorem C16_factor (Spec : matrix F -> matrix F -> Prop) :
             Forall2 (factor_of F ar chol_ex Spec (eff_jitter F st dt jitter) m) A L.
 Proof. intros H st d32 dt n A jitter max_tries L w A'. exact (psc_factor F ar chol_ex EA Spec H st d32 dt n A jitter max_tries L w A'). Qed.
 
+(* BOUNDARY jitter = 0 ("never perturb; fail loudly"): every rung of the ladder is 0 ... *)
+Theorem C16_zero_jitter_ladder k : J F ar (a0 ar) k = a0 ar.
+Proof. exact (J_zero F ar EA k). Qed.
+
+(* ... so a batch with a member whose plain factorisation fails is NEVER repaired, for every max_tries, every batch
+   shape, wherever the 0 comes from (argument, settings value, default): NotPSDError after max_tries warnings that all
+   announce 0 (for max_tries <= 0 the transcribed code raises UnboundLocalError: C16_max_tries_zero_refuted) *)
+Theorem C16_zero_jitter_never_repairs st d32 dt n A upper jitter max_tries :
+  trace_on st = false -> allok F chol_ex A = false -> existsb (has_nan ar) A = false ->
+  eff_jitter F st dt jitter = a0 ar ->
+  psc ar chol_ex st d32 dt n A upper jitter max_tries =
+  (match eff_tries F st max_tries with
+   | O => ErrUnbound
+   | S t' => ErrNotPSD (repeat (a0 ar) (S t')) (a0 ar)
+   end, A).
+Proof. exact (psc_zero_jitter F ar chol_ex EA st d32 dt n A upper jitter max_tries). Qed.
+
+Theorem C16_zero_jitter_fails_loudly st d32 dt n A upper jitter max_tries L w :
+  trace_on st = false -> allok F chol_ex A = false ->
+  eff_jitter F st dt jitter = a0 ar ->
+  fst (psc ar chol_ex st d32 dt n A upper jitter max_tries) <> Ok L w.
+Proof. exact (psc_zero_jitter_never_ok F ar chol_ex EA st d32 dt n A upper jitter max_tries L w). Qed.
+
+(* the same when the 0 is requested through `with settings.cholesky_jitter(...)` (arbitrarily nested with other
+   contexts) and no jitter argument is passed: a settings mechanism that treats 0 as "not specified" contradicts this *)
+Theorem C16_zero_jitter_via_settings_context st0 (cs : list (context F)) d32 dt n A upper max_tries L w :
+  trace_on (enter_all st0 cs) = false -> allok F chol_ex A = false ->
+  innermost_jitter F dt cs = Some (a0 ar) ->
+  fst (psc ar chol_ex (enter_all st0 cs) d32 dt n A upper None max_tries) <> Ok L w.
+Proof. exact (psc_zero_jitter_via_context F ar chol_ex EA st0 cs d32 dt n A upper max_tries L w). Qed.
+
 End ExactArithmetic.
+
+(* the ladder over Z (the arithmetic of the Examples): jitter * 10^i with the usual integer power *)
+Theorem C16_ladder_values_Z j i : J Z ArZ j i = (j * 10 ^ Z.of_nat i)%Z.
+Proof. exact (J_Z j i). Qed.
+
 
 Section ExactKernel.
 Variable F : Type.
@@ -377,5 +438,21 @@ Proof. reflexivity. Qed.
 Example ex_hyp_kernel_2x2 :   (* wf / has-factor hypotheses on a 2 x 2 matrix with an exact integer factor *)
   chol_kernel ArZ [[4%Z; 2%Z]; [2%Z; 10%Z]] = ([[2%Z; 0%Z]; [1%Z; 3%Z]], 0) /\ wf Z 2 [[4%Z; 2%Z]; [2%Z; 10%Z]].
 Proof. split; [reflexivity|]. split; [reflexivity|]. intros [|[|i]] Hi; try reflexivity. lia. Qed.
+
+(* jitter 0 requested by a NESTED settings context (outer context says 5, inner one says 0 for the double slot only):
+   hypotheses of C16_zero_jitter_via_settings_context, what the call does, and the contrast without the context *)
+Example ex_zero_jitter_context :
+  let cs := [CtxJitter (Some 5%Z) (Some 5%Z) None; CtxMaxTries 2%Z; CtxJitter None (Some 0%Z) None] in
+  innermost_jitter Z Float64 cs = Some 0%Z /\ innermost_jitter Z Float32 cs = Some 5%Z /\ innermost_tries Z cs = Some 2%Z /\
+  allok Z ck [pd; sing] = false /\
+  psc ArZ ck (enter_all st cs) true Float64 1 [pd; sing] false None None = (ErrNotPSD [0%Z; 0%Z] 0%Z, [pd; sing]) /\
+  psc ArZ ck (enter_all st cs) true Float32 1 [pd; sing] false None None = (Ok [[[2%Z]]; [[2%Z]]] [5%Z], [pd; sing]) /\
+  psc ArZ ck st true Float64 1 [pd; sing] false None None = (Ok [[[2%Z]]; [[1%Z]]] [1%Z], [pd; sing]).
+Proof. repeat split; reflexivity. Qed.
+
+Example ex_ladder :   (* C16_ladder on the hopeless batch: 3 tries announce 1*10^0, 1*10^1, 1*10^2 *)
+  warnings_of Z (fst (psc ArZ ck st true Float64 1 [pd; hopeless200] false None None))
+  = map (J Z ArZ 1%Z) (seq 0 3) /\ map (J Z ArZ 1%Z) (seq 0 3) = [1%Z; 10%Z; 100%Z].
+Proof. split; reflexivity. Qed.
 
 End Examples.
